@@ -283,6 +283,15 @@ def run(chk):
         for h in (0, 1):
             inputs.append(("declaration %d@%d" % (k, h), (HOSTS[0] % ("{ %s }" % dcl)) if h == 0 else (HOSTS[1] % dcl), True))
         inputs.append(("declaration %d@int" % k, HOSTS[0].replace("text:", "indent:") % ("{ %s }" % dcl), True))
+    # function values where a value is expected and values where a function is usual: every property position x every function shape
+    FUNCS = ["function(on: bool) { return chk.checked }", "(n: int) => n", "function(n: int) { return n + 1 }", "function() { return \"x\" }", "() => chk.checked", "(s: QString) => s",
+             "function(a: int, b: int) { return a + b }", "function(x: Nope) { return 1 }", "function(on: bool) { }", "(n: int) => { return chk.checked ? n : 0 }", "function f(n: int) { return n }",
+             "async function(n: int) { return n }", "function*(n: int) { return n }", "(n) => n", "function(n: int = 1) { return n }", "(...n) => 1"]
+    for f in FUNCS:
+        for pos in ("QLabel { text: %s }", "QLabel { enabled: %s }", "QLabel { indent: %s }", "QLabel { font.pointSize: %s; font.bold: chk.checked }", "QLabel { font { bold: %s; italic: chk.checked } }",
+                    "QVBoxLayout { spacing: %s }", "QGridLayout { QLabel { QLayout.row: %s } }", "QLabel { buddy: %s }", "QComboBox { model: %s }", "QLabel { geometry { x: %s; y: chk.checked ? 1 : 2 } }",
+                    "QTableView { horizontalHeader.visible: %s }", "QPushButton { onClicked: %s }", "QCheckBox { onToggled: %s }", "QLabel { id: %s }"):
+            inputs.append(("function value", HEAD + "QWidget { QCheckBox { id: chk } %s }\n" % (pos % f), True))
     # zero / negative / huge layout counts and indices; object names outside ASCII on objects that need support code
     for cnt in ("0", "-1", "65536", "65537", "4294967296", "1.5", "\"2\"", "true", "chk.checked ? 1 : 2"):
         for flow in ("columns: %s", "flow: QGridLayout.TopToBottom; rows: %s", "rows: %s", "flow: QGridLayout.TopToBottom; columns: %s"):
